@@ -122,6 +122,15 @@ var replayers = map[string]replayer{}
 
 func registerReplay(kind string, r replayer) { replayers[kind] = r }
 
+// rerunners are replayers for kinds whose recorded input contains schedule-dependent
+// observations (e.g. a concurrent history): they re-run the workload part of the recorded
+// input and return the fresh (input, observation) pair to emit.
+type rerunner func(c *Ctx, input Val) (Val, Val)
+
+var rerunners = map[string]rerunner{}
+
+func registerReplayRerun(kind string, r rerunner) { rerunners[kind] = r }
+
 func runReplay(c *Ctx, path string) error {
 	data, err := os.ReadFile(path)
 	if err != nil {
@@ -136,6 +145,15 @@ func runReplay(c *Ctx, path string) error {
 			continue
 		}
 		kind := parts[1]
+		if rr, ok := rerunners[kind]; ok {
+			in, err := parseVal(parts[2])
+			if err != nil {
+				return err
+			}
+			nin, nobs := rr(c, in)
+			c.Emit(kind, nin, nobs, true)
+			continue
+		}
 		rp, ok := replayers[kind]
 		if !ok {
 			return fmt.Errorf("no replayer for kind %s", kind)
